@@ -880,6 +880,74 @@ class Inliner:
             s.test = H().visit(s.test)
         return pre
 
+    EAGER = {"list", "tuple", "sorted", "set", "frozenset", "sum", "bytes", "bytearray", "dict", "max", "min"}
+
+    def _collect_generator(self, s, d, stack):
+        if not isinstance(s, (ast.Return, ast.Assign, ast.AnnAssign, ast.Expr)) or getattr(s, "value", None) is None or d <= 0:
+            return None
+        found = []
+
+        def scan(e):
+            # unconditional positions only
+            if isinstance(e, ast.Call):
+                eager = (isinstance(e.func, ast.Name) and e.func.id in self.EAGER) or \
+                    (isinstance(e.func, ast.Attribute) and e.func.attr == "join" and isinstance(e.func.value, (ast.Constant, ast.Name)))
+                if eager and len(e.args) == 1 and not e.keywords and isinstance(e.args[0], ast.Call):
+                    r = self.lookup(e.args[0])
+                    if r is not None and _contains(r[0], (ast.Yield, ast.YieldFrom)):
+                        found.append(e)
+                        return
+                for a in e.args:
+                    scan(a.value if isinstance(a, ast.Starred) else a)
+                for k in e.keywords:
+                    scan(k.value)
+                if isinstance(e.func, ast.Attribute):
+                    scan(e.func.value)
+            elif isinstance(e, (ast.Tuple, ast.List)):
+                for x in e.elts:
+                    scan(x)
+            elif isinstance(e, ast.Attribute):
+                scan(e.value)
+        scan(s.value)
+        if len(found) != 1:
+            return None
+        cons = found[0]
+        gcall = cons.args[0]
+        r = self.lookup(gcall)
+        callee = r[0]
+        if callee.name in stack or any(isinstance(n, ast.Return) and n.value is not None for n in ast.walk(callee)):
+            return None
+        self.counter += 1
+        acc = f"acc_{callee.name.strip('_')}{self.counter}"
+
+        class Y(ast.NodeTransformer):
+            def visit_Expr(self, node):
+                v = node.value
+                if isinstance(v, ast.Yield) and v.value is not None:
+                    return ast.copy_location(ast.Expr(ast.Call(func=ast.Attribute(value=ast.Name(id=acc, ctx=ast.Load()), attr="append", ctx=ast.Load()), args=[v.value], keywords=[])), node)
+                if isinstance(v, ast.YieldFrom):
+                    return ast.copy_location(ast.Expr(ast.Call(func=ast.Attribute(value=ast.Name(id=acc, ctx=ast.Load()), attr="extend", ctx=ast.Load()), args=[v.value], keywords=[])), node)
+                return node
+
+            def visit_FunctionDef(self, node):
+                return node
+            visit_Lambda = visit_FunctionDef
+        c2 = copy.copy(callee)
+        c2.body = [Y().visit(copy.deepcopy(x)) for x in real_body(callee)]
+        if _contains(c2, (ast.Yield, ast.YieldFrom)):
+            return None         # a yield whose value is used
+        old = self.lookup
+        self.lookup = lambda call_: (c2, r[1]) + tuple(r[2:]) if call_ is gcall else old(call_)
+        try:
+            body = self.expand(gcall, "expr", None, s, d, stack)
+        finally:
+            self.lookup = old
+        if body is None:
+            return None
+        cons.args[0] = ast.Name(id=acc, ctx=ast.Load())
+        init = ast.copy_location(ast.Assign(targets=[ast.Name(id=acc, ctx=ast.Store())], value=ast.List(elts=[], ctx=ast.Load())), s)
+        return [ast.fix_missing_locations(init)] + body + [s]
+
     def _comp_as_loop(self, s, d, stack):
         if not (isinstance(s, ast.Assign) and len(s.targets) == 1 and isinstance(s.value, ast.ListComp) and d > 0):
             return None
@@ -942,6 +1010,11 @@ class Inliner:
                 for fld in ("test", "iter", "subject"):
                     if hasattr(s, fld):
                         setattr(s, fld, self.inline_exprs(getattr(s, fld), d, stack))
+            # 1a a generator helper consumed whole (b"".join(g(..)), list(g(..)), ..): its body runs here, each `yield X` appending to a list
+            col = self._collect_generator(s, d, stack)
+            if col is not None:
+                out += self.rec(col, d, stack)
+                continue
             # 1b a comprehension whose element calls a helper that is not an expression (several statements, effects in
             #    between) is the accumulate loop it abbreviates: the helper's statements then become the loop body
             loop = self._comp_as_loop(s, d, stack)
@@ -2338,6 +2411,7 @@ class Canon:
         inl = Inliner(look)
         b = inl.tail_generator_delegation(b, (fn.name,))
         b = inl.rec(b, inl.depth, (fn.name,))
+        b = [x for x in (_StripAnn().visit(s_) for s_ in b) if not isinstance(x, ast.Pass)] or b      # (bare declarations of inlined helpers)
         b2 = inl.tail_generator_delegation(b, (fn.name,))      # .. reached through a plain helper that was just inlined
         if b2 is not b:
             b = inl.rec(lift_walrus(lift_ifexp(b2)), inl.depth, (fn.name,))
